@@ -1,4 +1,4 @@
-use crate::{InputTrait, Parser};
+use crate::{InputTrait, Parser, ParserErrorTrait};
 
 pub struct PeekParser<P> {
     parser: P,
@@ -25,7 +25,12 @@ where
                 input.set_position(original_position);
                 Ok(value)
             }
-            Err(err) => Err(err),
+            Err(err) => {
+                if err.is_soft() {
+                    input.set_position(original_position);
+                }
+                Err(err)
+            }
         }
     }
 
